@@ -13,7 +13,9 @@ CHECKS = {
         technique="bounded-exhaustive input-shape enumeration (template-driven generator) against an independent reference wire encoder",
         text="All 481 templates x value rows covering every alphabet element of every variable x block-count variants x header variants are "
              "encoded by the real serializer, compared byte-for-byte with an independent struct-based reference encoder (own template parser), "
-             "decoded eagerly and lazily and compared value-by-value (floats bit-exact); default-fill is enumerated per template and variable. "
+             "decoded eagerly and lazily and compared value-by-value (floats bit-exact); default-fill is enumerated per template and variable, and with exactly "
+             "one block (first / middle / last) of every repeated block list marked. Codec histories: a conformant message (plain and zero-coded) after each of "
+             "up to 7 kinds of rejected serialize / deserialize call, and after all of them in a row, on the same long-lived serializer and deserializers. "
              "Exhaustive over the stated finite product, which is what a sequential codec with no cross-variable state needs.",
         note="Values are drawn from boundary alphabets per wire type (8/16-bit boundaries, single large values for 32/64-bit), not full domains; "
              "each-choice rows instead of full cross products; canonical value domain (see evidence assumptions)."),
@@ -22,7 +24,8 @@ CHECKS = {
         technique="bounded-exhaustive enumeration of datagrams (generated, byte-mutated, truncated, extended, re-zero-coded) x all inspection histories up to length 3",
         text="Every generator datagram of all 481 templates (laid out by the independent reference encoder), every truncation / single-byte substitution / "
              "extension of 14 basis datagrams and non-canonical zero-codings are pushed through every sequence of {header read, body touch, to_dict, "
-             "serialize} up to length 3 in deferred and eager mode; the output must be byte-identical (never parsed, failed parse, parsed with canonical "
+             "serialize} up to length 3 in deferred and eager mode (generator datagrams also after the same codec objects rejected unrelated half-built messages and "
+             "undecodable datagrams: XS, XBS, BXS, XBSS); the output must be byte-identical (never parsed, failed parse, parsed with canonical "
              "zero-coding) and must always decode to the same message. Exhaustive over the stated product.",
         note="Datagrams rejected by the header parser are out of scope; byte identity after a successful parse is not demanded when a float decodes to NaN "
              "or the zero-coding is non-canonical; mutation alphabet {00,01,7F,80,FF} per offset."),
@@ -43,7 +46,9 @@ CHECKS = {
         text="Every history of {send next, skip ahead, re-send/out-of-order, inject} up to depth 8 (quick) / 10 (thorough) with "
              "tracker windows 1..3 is executed on the real InjectionTracker; after every step all translation laws are evaluated for "
              "every ID in range. A second search drives a real ProxiedCircuit (send / drop_message / take + re-inject, first sight flagged RESENT) to depth 6 "
-             "(quick) / 7 and evaluates the same laws on the packet ids of the captured datagrams. Bounded exhaustive: the right level for a small state "
+             "(quick) / 7 and evaluates the same laws on the packet ids of the captured datagrams; in every state of that search every ordered list of up to 3 "
+             "of the newest 3 (thorough 4) wire ids is acknowledged by an inbound packet (appended acks, PacketAck body, acks on a dropped packet) and the "
+             "acks reaching the viewer must be the original ids of the non-injected ones. Bounded exhaustive: the right level for a small state "
              "machine whose bugs are 2-4 events deep.",
         note="IDs older than an injection that aged out of the window are out of scope (bounded memory); packet-ID wrap-around excluded; "
              "production window is 10000, harness uses 1..3 to reach eviction."),
